@@ -86,6 +86,10 @@ pub struct RelRow {
     pub reparsed_eq: bool,
     /// both hash equally
     pub hash_eq: bool,
+    /// `path(from) == path(to)` (two different objects: must be false)
+    pub paths_eq: bool,
+    /// `hash(path(from)) == hash(path(to))`
+    pub paths_hash_eq: bool,
 }
 
 impl Story {
@@ -153,6 +157,8 @@ impl Story {
                 reparsed: reparsed.to_string(),
                 reparsed_eq: reparsed == rel,
                 hash_eq: hash_of(&reparsed) == hash_of(&rel),
+                paths_eq: Object::get_path(f.as_ref()) == target_path,
+                paths_hash_eq: hash_of(&Object::get_path(f.as_ref())) == hash_of(&target_path),
             });
         }
         out
